@@ -49,6 +49,7 @@ type Plan struct {
 	Tier       string      `json:"tier"`
 	Kind       string      `json:"kind"`
 	Mode       string      `json:"mode"`
+	Pick       int         `json:"pick"` // shared / recycle mode: index of the decodable corpus sample to start from (-1: drawn from the run seed)
 	Tasks      [][]OpSpec  `json:"tasks"`
 	Sched      SchedSpec   `json:"sched"`
 	Faults     []FaultSpec `json:"faults"`
@@ -121,6 +122,20 @@ func NumFocused(t Tier) int {
 	return len(focusList(t)) + t.NShared + t.NRecycle
 }
 
+// FixTiers sizes the shared / recycle focused phases from the corpus: every
+// decodable sample is the shared message (resp. the first packet) once per round.
+func FixTiers() {
+	for name, t := range Tiers {
+		n := len(Cat.OKSamples)
+		if n == 0 {
+			n = 1
+		}
+		t.NShared = n * t.Rounds
+		t.NRecycle = n * t.Rounds
+		Tiers[name] = t
+	}
+}
+
 var focusCache = map[string][]int{}
 
 // focusList: catalogue entry index of every focused private run, in order:
@@ -186,7 +201,7 @@ func PlanRun(seed, index uint64, tierName string) *Plan {
 	t := Tiers[tierName]
 	rs := Mix(seed, index)
 	r := NewRng(rs)
-	p := &Plan{Property: "C19", Seed: seed, Index: index, RunSeed: rs, Tier: tierName}
+	p := &Plan{Property: "C19", Seed: seed, Index: index, RunSeed: rs, Tier: tierName, Pick: -1}
 	p.Sched.Stall, p.Sched.LowPrio = -1, -1
 	fl := focusList(t)
 	nPriv := len(fl)
@@ -213,9 +228,11 @@ func PlanRun(seed, index uint64, tierName string) *Plan {
 		}
 	case int(index) < nPriv+t.NShared:
 		p.Kind, p.Mode = "focused", "shared"
+		p.Pick = int(index) - nPriv // every decodable sample in turn
 		planShared(p, r, 3+r.Intn(3), 4)
 	case int(index) < nPriv+t.NShared+t.NRecycle:
 		p.Kind, p.Mode = "focused", "recycle"
+		p.Pick = int(index) - nPriv - t.NShared
 		planRecycle(p, r, 2*(1+r.Intn(2)))
 	default:
 		p.Kind = "swarm"
@@ -400,7 +417,7 @@ func safeDump(vals []interface{}) (s string) {
 // baseline runs all operations sequentially (simulation inactive), in task
 // order or in reverse, dumping each outcome right after the operation.
 func baseline(p *Plan, slow map[[2]int]bool, reverse bool) [][]outcome {
-	env := NewEnv(p.Mode, p.RunSeed, len(p.Tasks))
+	env := NewEnv(p.Mode, p.RunSeed, len(p.Tasks), p.Pick)
 	insts := buildAll(p, env, slow)
 	out := make([][]outcome, len(p.Tasks))
 	for t := range p.Tasks {
@@ -579,7 +596,7 @@ func ExecRun(p *Plan) *Record {
 	}
 
 	// simulated execution
-	env := NewEnv(p.Mode, p.RunSeed, len(p.Tasks))
+	env := NewEnv(p.Mode, p.RunSeed, len(p.Tasks), p.Pick)
 	insts := buildAll(p, env, slow)
 	bodies := make([]func(), len(insts))
 	for t := range insts {
@@ -675,6 +692,7 @@ func InitHarness() {
 	}
 	vsimrt.InitSites(len(SiteTab))
 	BuildCatalogue()
+	FixTiers()
 }
 
 // SiteName renders a site id.
